@@ -2,7 +2,7 @@ SPECIFICATION Spec
 CONSTANTS
   NSock = 1
   Tokens = {1, 2, 3, 4, 5}
-  MaxTotal = 8
+  MaxTotal = 7
   Variants = {"code"}
 INVARIANT TypeOK
 INVARIANT Conforms
